@@ -443,6 +443,11 @@ var layoutHazards = []string{
 	`module m { %H include s { revision-date %V; } uses sg; leaf l { type st; } } submodule s { belongs-to m { prefix m; } revision 2019-01-01; typedef st { type int8; } grouping sg { leaf old { type st; } } } submodule s { belongs-to m { prefix m; } revision 2020-01-01; typedef st { type string; } grouping sg { leaf new { type st; } } }`,
 	`module m { %H revision 2020-01-01; augment /x:c { leaf a { type string; } } import x { prefix x; } deviation /x:c/x:d { deviate %D; } } module m { %H revision 2021-01-01; import x { prefix x; } augment /x:c { leaf a { type string; } } } module x { namespace "urn:x"; prefix x; container c { leaf d { type string; } } }`,
 	`module m { %H include m; } submodule m { belongs-to m { prefix m; } leaf l { type %T; } }`,
+	// member lists with positions or values that collide, in types that get compared with each
+	// other: two members of one union, a typedef and a type that lists the members again
+	`module m { %H leaf l { type union { type bits { bit x { position %B; } bit y { position %B; } } type bits { bit w { position %B; } bit y { position %B; } } type bits { bit y; bit w; } } } }`,
+	`module m { %H typedef tb { type bits { bit x { position %B; } bit y { position %B; } } } leaf l { type tb { bit w { position %B; } bit y { position %B; } } } leaf-list ll { type union { type tb; type tb { bit y { position %B; } bit x { position %B; } } } } }`,
+	`module m { %H typedef te { type enumeration { enum x { value %B; } enum y { value %B; } } } leaf l { type union { type te; type enumeration { enum y { value %B; } enum w { value %B; } } type te { enum x; } } } }`,
 	// module names that are paths (the loader looks for modules as files), in imports, includes
 	// and revision dates
 	`module m { %H import "/dev/zero" { prefix z; } }`, `module m { %H include "../../../../../../dev/zero"; }`, `module m { %H import n { prefix n; revision-date "/../../../../../dev/zero"; } }`,
@@ -471,6 +476,7 @@ var fill = map[string][]string{
 	"%T": {"string", "int8", "uint64", "decimal64", "enumeration", "bits", "union", "identityref", "leafref", "empty", "boolean", "binary", "instance-identifier", "nosuch", "m:t", "x:y", "\"\""},
 	"%P": {"/", "", "//", "/m:l", "/m:c/m:d", "../x", "/m:", "m:", "/x:y", "/m:r/m:input", "/m:l/m:l", "."},
 	"%D": {"add", "replace", "delete", "not-supported", "frobnicate", "\"\""},
+	"%B": {"0", "1", "1", "2", "4294967295", "-1"},
 	"%N": {"0", "1", "-1", "-0", "18", "19", "255", "256", "2147483647", "2147483648", "4294967295", "4294967296", "9223372036854775807", "9223372036854775808", "18446744073709551615", "18446744073709551616", "-18446744073709551615", "unbounded", "0x10", "1.5", "a", "\"\""},
 	"%R": {"1..5", "min..max", "5..1", "1..2..3", "0..18446744073709551615|18446744073709551615", "-0..5", "1|2|3", "max..min", "1.5..2.5", "a", "", "|", "-9223372036854775808..9223372036854775807", "1..5|3..8"},
 	"%A": {"a", "k", "true", "false", "user", "2020-01-01", "1.1", "\"a b\"", "\"\"", "x:y"},
